@@ -538,7 +538,9 @@ func NewPackage(pkgPath string, pkg *ast.Package, conf *Config) (p *gogen.Packag
 		rec = newRecorder(conf.Recorder)
 		confGox.Recorder = rec
 		defer func() {
-			rec.Complete(p.Types.Scope())
+			if p != nil { // nil if gogen.NewPackage panicked
+				rec.Complete(p.Types.Scope())
+			}
 		}()
 	}
 	if enableRecover {
